@@ -98,3 +98,16 @@ func vfDecode(codecs []securecookie.Codec, name, value string, dst *map[interfac
 }
 
 func vfDecompress(s string) string { return decompressToken(s) }
+
+// vfJWKSetLifetime shortens the lifetime of the key-set cache (an exported field of JWKCache,
+// reached through the unexported jwkCache field); false when the instance uses another cache type
+func vfJWKSetLifetime(t *TraefikOidc, d time.Duration) bool {
+	c, ok := t.jwkCache.(*JWKCache)
+	if ok {
+		c.CacheLifetime = d
+	}
+	return ok
+}
+
+// vfJWKCleanup is what the once-a-minute cleanup tick does to the key-set cache
+func vfJWKCleanup(t *TraefikOidc) { t.jwkCache.Cleanup() }
